@@ -1,6 +1,6 @@
 #!/usr/bin/env python3
 """Per-property registry: Lean theorems, case generators, execution and classification."""
-import itertools, json, hashlib, collections, os
+import itertools, json, hashlib, collections, os, re
 import runlib, gen, fixtures, alpha
 from alpha import enc
 
@@ -517,6 +517,14 @@ MODEL_VALUES = ["={T}", "={[T]}", "={[T, 'arg']}", "={[T, ['lazy']]}", "={[T, 'a
 MODEL_HOSTS = ["input", 'input type="checkbox"', 'input type="radio"', 'input type="text"', "input type={t}", 'input type={"checkbox"}', "input type={'radio'}", "input type", "select", "textarea", "div", "Comp", "Unk", "NS.Item"]
 
 
+C05_COMPUTED = ["v-model={[a1, dyn]}", "v-model={[a1, dyn, ['m']]}", "v-model_trim={[a1, dyn]}", "v-models={[[a1, dyn]]}", "v-models={[[a1, dyn], [b2, 'bar']]}",
+                "v-models={[[a1, dyn, ['m']], [b2, dyn2]]}", "v-model={[a1, 'arg']}", "v-model:baz={a1}"]
+C05_REPEATS = [("class={cls}", 'class="s"'), ("style={obj}", "style={x}"), ("onClick={fn1}", "onClick={handler}"), ("onUpdate:foo={log}", "v-model:foo={b1}"),
+               ("v-model:foo={b1}", "onUpdate:foo={log}"), ("onUpdate:modelValue={log}", "v-models={[[c1]]}"), ("onUpdate:qux={log}", "v-models={[[b1, 'qux', ['m']]]}"),
+               ("onInput={fn1}", "title=\"t\" onInput={[handler]}")]
+C05_ARRANGE = ["C R1 R2", "R1 C R2", "R1 R2 C", "C id=\"a\" R1 title={y} R2"]
+
+
 def c05_cases(tier, seed):
     r = gen.Rng(seed)
     run = corpus_cases("C05") + fixture_cases()
@@ -532,15 +540,91 @@ def c05_cases(tier, seed):
             for rest in ["", ' id="a"', " v-model={z}"]:
                 run.append({"id": "e%d" % len(run), "src": gen.PRELUDE + "const v = <%s v-models={%s}%s/>;\n" % (host, models, rest), "tsx": False, "opts": {}})
     run = [c for c in run if c]
+    # props with a NON-string key (computed v-model argument, with and without modifiers, as v-model and as a v-models entry) before, between
+    # and after attributes whose names repeat and are merged (class, style, listeners, a hand-written onUpdate:<name> beside the v-model of
+    # that name), on every host kind, mergeProps on and off
+    n_seq = 0
+    for ci, comp in enumerate(C05_COMPUTED):
+        for ri, (r1, r2) in enumerate(C05_REPEATS):
+            if "v-models" in comp and "v-models" in r1 + r2:
+                continue
+            for ai, arr in enumerate(C05_ARRANGE):
+                for hi, host in enumerate(["Comp", "Unk", "NS.Item", "KeepAlive", "div", "input"]):
+                    for oi, o in enumerate([{}, {"mergeProps": False}, {"optimize": True}, {"optimize": True, "mergeProps": False, "transformOn": True}]):
+                        if hi and (ci + ri + ai + hi + oi) % 4:
+                            continue
+                        n_seq += 1
+                        attrs = arr.replace("R1", r1).replace("R2", r2).replace("C", comp)
+                        run.append({"id": "seq%d" % n_seq, "src": gen.PRELUDE + "let a1, b1, c1, b2;\nconst v = <%s %s>{x}</%s>;\n" % (host, attrs, host), "tsx": False, "opts": o})
     prof = {"tags": {"html": 6, "bound": 4, "unbound": 2, "member": 1, "custom": 1}, "w_directive": 6,
             "directives": {"model": 8, "models": 3, "show": 1, "custom": 1}}
     mods, hist = gen_modules(r, budget(tier, 2500, 60000), prof, std_opts)
     run += mods
-    return [], run, {"rule": "fixtures + product of 6 v-model spellings x 7 value/argument/modifier forms x 14 hosts x 3 targets (targets other than identifier sampled 1/3 in quick) + v-models lists x hosts + %d generated modules rich in v-model(s)" % len(mods),
+    return [], run, {"rule": "fixtures + product of 6 v-model spellings x 7 value/argument/modifier forms x 14 hosts x 3 targets (targets other than identifier sampled 1/3 in quick) + v-models lists x hosts + %d attribute sequences (8 v-model forms with computed / static arguments x 8 repeated mergeable names incl. a hand-written onUpdate listener beside the v-model of that name x 4 arrangements x 6 hosts x mergeProps/optimize) + %d generated modules rich in v-model(s); cases failing under the recorded computed-argument finding are judged again with that deviation undone" % (n_seq, len(mods)),
                      "exhaustive": tier != "quick", "exhaustive_part": "spellings x forms x hosts x targets product", "histogram": dict(hist.most_common(40))}
 
 
+def _undo_known_computed_listener_key(node):
+    """copy of an output AST in which every computed key `"onUpdate" + e` reads `"onUpdate:" + e` (the recorded finding
+    v-model/vmodel-computed-arg, undone)"""
+    if isinstance(node, list):
+        return [_undo_known_computed_listener_key(x) for x in node]
+    if not isinstance(node, dict):
+        return node
+    out = {k: _undo_known_computed_listener_key(v) for k, v in node.items()}
+    if out.get("type") == "Computed":
+        e = out.get("expression") or {}
+        if e.get("type") == "BinaryExpression" and e.get("operator") == "+" and (e.get("left") or {}).get("type") == "StringLiteral" \
+                and e["left"].get("value") == "onUpdate":
+            e["left"]["value"] = "onUpdate:"
+            e["left"].pop("raw", None)
+    return out
+
+
+def _spread_beside_model(node):
+    """does some element carry a spread attribute together with a v-model(s) attribute?  (the output then holds the computed-key props inside a
+    mergeProps argument, which Sem.evalOut reads as an object-literal spread while Sem.denote keeps them as a segment: not comparable)"""
+    if isinstance(node, list):
+        return any(_spread_beside_model(x) for x in node)
+    if not isinstance(node, dict):
+        return False
+    if node.get("type") == "JSXOpeningElement":
+        attrs = node.get("attributes", [])
+        names = [(a.get("name") or {}).get("value", "") or ((a.get("name") or {}).get("namespace") or {}).get("value", "") for a in attrs if a.get("type") != "SpreadElement"]
+        if any(a.get("type") == "SpreadElement" for a in attrs) and any(n.lower().replace("-", "").startswith("vmodel") for n in names):
+            return True
+    return any(_spread_beside_model(v) for v in node.values())
+
+
+def c05_extra(run_cases, recs, records):
+    """the recorded finding `vmodel-computed-arg` (listener key without the colon) is keyed by an INPUT feature, so it would hide any other
+    defect of an element that has a computed v-model argument (and of every element after it in the module: the judge reports the first
+    failing element).  Every case failing under that key is judged a second time on the real output with exactly that deviation undone;
+    what still fails there is a different failure and gets its own key."""
+    byid = {r["id"]: r for r in records}
+    sel = []
+    for c, r in zip(run_cases, recs):
+        rec = byid.get(c["id"])
+        if rec is not None and rec["kind"] == "run" and rec["oracle"].startswith("FAIL:v-model/vmodel-computed-arg:") and "out" in r and "in" in r \
+                and not _spread_beside_model(r["in"]):
+            r2 = dict(r)
+            r2["out"] = _undo_known_computed_listener_key(r["out"])
+            sel.append((c, r2, rec))
+    if not sel:
+        return
+    lines = runlib.to_driver_lines([c for c, _, _ in sel], [r2 for _, r2, _ in sel])
+    outs = runlib.run_driver(lines, mode=["C05"])
+    for (c, r2, rec), o in zip(sel, outs):
+        d = runlib.parse_driver_line(o)
+        orc = d.get("oracle", "ok")
+        if orc.startswith("FAIL:v-model/vmodel-computed-arg:"):
+            rec["oracle"] = orc.replace("FAIL:v-model/vmodel-computed-arg:", "FAIL:v-model/beyond-the-recorded-computed-arg-key:", 1)
+        elif orc.startswith("FAIL:") and not orc.startswith("FAIL:v-model/vmodel-arg-on-element:"):
+            rec["oracle"] = orc
+
+
 PROPS["C05"] = {
+    "extra": c05_extra,
     "theorems": ["C05_select", "C05_textarea", "C05_input_checkbox", "C05_input_radio", "C05_input_other_static", "C05_input_no_type",
                  "C05_input_dynamic_type", "C05_listener_assigns_target", "C05_component_default", "C05_component_modifiers",
                  "C05_component_static_arg", "C05_element_binding", "C05_models_sequence", "C05_models_entry_plain", "C05_models_entry_named"],
@@ -618,7 +702,12 @@ PROPS_PROFILES = {
 }
 
 PROPS["C12"] = {
-    "theorems": ["C12_attrs_blind", "C12_assemble_blind", "C12_wrap_adds_only_hint", "C12_hint_entry", "C12_erase_wrap", "C12_stack_untouched_when_off", "C12_push_pop_balanced"],
+    "theorems": ["C12_attrs_blind", "C12_assemble_blind", "C12_wrap_adds_only_hint", "C12_hint_entry", "C12_erase_wrap", "C12_stack_untouched_when_off", "C12_push_pop_balanced",
+                 # the whole-module theorem (Props/C12b.lean) and the simulation lemmas it rests on
+                 "C12_module_hints_only", "C12_module_same_diagnostics", "C12_element_hints_only", "C12_rel_same_root",
+                 "transformModule_rel", "visit_rel", "trElement_rel", "trFragment_rel", "finishChildren_rel", "attrStep_rel", "parseDirective_rel",
+                 "dedupeProps_rel", "isConstant_rel", "exprHook_rel", "kindHook_rel", "openingHook_rel", "drainInto_rel", "drainArrow_rel", "finishModule_rel"],
+    "extra_modules": ["VueJsx.Props.C12b"],
     "cases": c12_cases,
     "explanation": "pair oracle on the implementation: eraseHints(output under optimize=true) = output under optimize=false, syntactically, hence under every semantics",
 }
@@ -868,11 +957,71 @@ def c20_cases(tier, seed):
     for cid, src in tsgen.c20_products(tier):
         for rt in ([True, False] if (len(run) % 5 == 0) else [True]):
             run.append({"id": "%s|rt=%s" % (cid, rt), "src": src, "tsx": True, "opts": {"resolveType": rt}})
-    return [], run, {"rule": "TSX fixtures + product of binding provenance of `defineComponent` (vue named import, aliased, namespace member, other module, local function, global, shadowed by a parameter) x setup shapes (typed arrow, with SetupContext, untyped, function expression, non-function, object) x 20 options shapes (none, {}, each key explicit, string/shorthand/method/computed/getter spellings, spreads before/after, identifier, call, conditional, spread argument) x 10 declaration kinds (const/let/var/export/default export/assignment/bare/destructuring/wrapped/annotated); the full product in thorough, in quick the complete slices through the vue-named import plus a 6% sample of the rest; + spread first argument and member callee x options; resolveType on (and off for 1/5)",
+    return [], run, {"rule": "TSX fixtures + product of binding provenance of `defineComponent` (vue named import, aliased, namespace member, other module, local function, global, shadowed by a parameter, vue's export imported under ANOTHER name next to another module's / a local function's / a local const's / a default import's `defineComponent`, self-alias and string-name specifiers, another vue export imported as defineComponent) x setup shapes (typed arrow, with SetupContext, untyped, function expression, non-function, object) x 20 options shapes (none, {}, each key explicit, string/shorthand/method/computed/getter spellings, spreads before/after, identifier, call, conditional, spread argument) x 10 declaration kinds (const/let/var/export/default export/assignment/bare/destructuring/wrapped/annotated); the full product in thorough, in quick the complete slices through the vue-named import plus a 6% sample of the rest; + spread first argument and member callee x options; resolveType on (and off for 1/5)",
                      "exhaustive": tier == "thorough", "exhaustive_part": "provenance x setup x options x declaration product"}
 
 
+def _vue_define_locals(mod):
+    """(local name, syntax context) of every import specifier that imports the export `defineComponent` of 'vue'"""
+    out = set()
+    for it in mod.get("body", []):
+        if it.get("type") == "ImportDeclaration" and (it.get("source") or {}).get("value") == "vue":
+            for sp in it.get("specifiers", []):
+                if sp.get("type") == "ImportSpecifier":
+                    loc, imp = sp.get("local") or {}, sp.get("imported")
+                    if (imp.get("value") if imp else loc.get("value")) == "defineComponent":
+                        out.add((loc.get("value"), loc.get("ctxt")))
+    return out
+
+
+def _user_calls(node, acc):
+    if isinstance(node, dict):
+        if node.get("type") == "CallExpression" and not _dummy_span(node):
+            sp = node["span"]
+            acc[(sp["start"], sp["end"])] = node
+        for v in node.values():
+            _user_calls(v, acc)
+    elif isinstance(node, list):
+        for v in node:
+            _user_calls(v, acc)
+    return acc
+
+
+def c20_post(rec, c, r, d):
+    """python-side sharpening of the gate clause: Oracle.c20Call accepts a changed call when the callee's BINDING CLASS (syntax context) is that of a
+    specifier importing vue's defineComponent - but the resolver gives every module-level binding the same context.  The statement speaks of the
+    BINDING: a call whose argument list was changed must have as callee exactly the local identifier (name AND context) of such a specifier."""
+    if rec["oracle"] != "ok" or "in" not in r or "out" not in r or r.get("panic") is not None:
+        return
+    locals_ = _vue_define_locals(r["in"])
+    cin, cout = _user_calls(r["in"], {}), _user_calls(r["out"], {})
+    for sp, ci in sorted(cin.items()):
+        co = cout.get(sp)
+        if co is None:
+            continue
+        ai, ao = ci.get("arguments", []), co.get("arguments", [])
+        def shape(a):
+            out = []
+            for x in a:
+                e = x.get("expression") or {}
+                t = e.get("type")
+                if t in ("JSXElement", "JSXFragment") or (t == "CallExpression" and _dummy_span(e)):
+                    out.append(("lowered-jsx", 0))       # a JSX argument and its lowering are the same argument
+                else:
+                    out.append((t, len(e.get("properties", []) or [])))
+            return out
+        if len(ai) == len(ao) and shape(ai) == shape(ao):
+            continue
+        cal = ci.get("callee") or {}
+        ok = (c.get("opts") or {}).get("resolveType") and cal.get("type") == "Identifier" and (cal.get("value"), cal.get("ctxt")) in locals_
+        if not ok:
+            rec["oracle"] = "FAIL:augmented-foreign-call:the call at bytes %d..%d of `%s` is not a call of the binding imported as defineComponent from 'vue' (such bindings: %s) but its arguments were changed (%d -> %d arguments)" % (
+                sp[0], sp[1], cal.get("value") if cal.get("type") == "Identifier" else cal.get("type"), sorted(x[0] for x in locals_), len(ai), len(ao))
+            return
+
+
 PROPS["C20"] = {
+    "post": c20_post,
     "nontrivial": lambda c, r: "defineComponent(" in c["src"] or "defineComponent (" in c["src"],
     "theorems": ["C20_off_untouched", "C20_other_calls_untouched", "C20_gate_iff", "C20_member_callee_never", "C20_import_other_module",
                  "C20_explicit_option_kept", "C20_spread_arguments_untouched", "C20_options_expression_spread_last",
@@ -1314,6 +1463,10 @@ C10_STMTS = ["const s = <Comp>{val}</Comp>;", "const s = <Comp>{f()}</Comp>;", "
              "const s = <Comp on={{click: fn1}} v-model={val}>{val}</Comp>;", "function s() { return <Comp>{val}</Comp>; }", "const s = <Foo>{cls}</Foo>;"]
 
 
+C10_OUTER_TEMP = ["(<Comp>{fa()}</Comp>);", "const pa = <Foo>{ga()}</Foo>;", "(<><Comp>{fa()}</Comp><Foo>{ga()}</Foo></>);", "out.push(<Unk>{obj.render()}</Unk>);"]
+C10_NESTED = ["function nst1() { const t = <Foo>{k()}</Foo>; return t; }", "const nst2 = () => <Bar>{m()}</Bar>;", "{ const nst3 = <Foo>{k()}</Foo>; }",
+              "class nst4 { m() { return <Bar>{m()}</Bar>; } }", "if (x) { out.push(<Foo>{k()}</Foo>, <Bar>{m()}</Bar>); }", "function nst6() { return <i/>; }",
+              "const nst7 = () => { const inner = () => <Foo>{k()}</Foo>; return <Bar>{inner()}</Bar>; };", "for (const it of list) { out.push(<Foo>{it()}</Foo>); }"]
 C10_TAGS = ["div", "motion.div", "input", "Form.input", "Comp", "ui.Comp", "NS.Item", "Item", "my-el", "a.b.div", "select", "textarea", "ui.textarea", "Unk", "x.Unk"]
 
 
@@ -1357,6 +1510,24 @@ def c10_cases(tier, seed):
                     b = {"id": "tagctx%d" % n, "src": src, "tsx": False, "opts": o}
                     run.append(b)
                     pairs.append({"id": "c10tag_%d" % n, "mode": "c10:%d:%d" % (npre, npre + (1 if before else 0)), "a": a["id"], "b": b["id"]})
+    # HISTORIES of length > 1 around the statement: other module-level JSX that needs a temporary (A), nested statement lists / functions / arrows /
+    # methods / blocks with and without temporaries of their own (N), in every order before and after the statement
+    for si, stmt in enumerate(C10_STMTS):
+        o = {"optimize": bool(si % 2)} if tier == "quick" else {"optimize": bool(si % 2), "transformOn": True}
+        a = {"id": "halone%d" % si, "src": gen.PRELUDE + stmt + "\n", "tsx": False, "opts": o}
+        run.append(a)
+        hists = []
+        for ai, A in enumerate(C10_OUTER_TEMP):
+            for ni, N in enumerate(C10_NESTED):
+                A2, N2 = re.sub(r"\bpa\b", "pa2", C10_OUTER_TEMP[(ai + 1) % len(C10_OUTER_TEMP)]), re.sub(r"\bnst", "nsu", C10_NESTED[(ni + 2) % len(C10_NESTED)])
+                hists += [([A, N], []), ([], [N, A]), ([A], [N]), ([N, A], [N2]), ([A, N], [N2, A2]), ([N], [A, N2])]
+        for hi, (pre, suf) in enumerate(hists):
+            if tier == "quick" and (hi + si) % 2:
+                continue
+            n += 1
+            b = {"id": "hctx%d" % n, "src": gen.PRELUDE + "\n".join(pre + [stmt] + suf) + "\n", "tsx": False, "opts": o}
+            run.append(b)
+            pairs.append({"id": "c10h_%d" % n, "mode": "c10:%d:%d" % (npre, npre + len(pre)), "a": a["id"], "b": b["id"]})
     # random: a generated statement alone vs. between generated distractor statements
     prof = dict(GENERAL_PROFILE); prof["n_stmts"] = [(1, 1)]; prof["p_distractor"] = 0
     for i in range(budget(tier, 500, 12000)):
@@ -1371,11 +1542,66 @@ def c10_cases(tier, seed):
         b = {"id": "rb%d" % i, "src": gen.PRELUDE + "\n".join(pre) + "\n" + stmt + "\n" + "\n".join(suf) + "\n", "tsx": False, "opts": o}
         run += [a, b]
         pairs.append({"id": "r%d" % i, "mode": "c10:%d:%d" % (npre, npre + len(pre)), "a": a["id"], "b": b["id"]})
-    return [], run, {"rule": "pair oracle on the real code: 12 JSX statements (sole identifier/call children, Fragment/_Fragment tags, fragments, spreads, v-slots, arrows, KeepAlive, transformOn + v-model, function bodies) transformed ALONE and between 20 prefixes x 2 suffixes; 15 tags of different kinds sharing a name or last segment (div / motion.div / a.b.div, input / Form.input, Comp / ui.Comp, ...) x 2 shapes, each alone vs. before and after each other tag; (assignments to same-named variables, function/arrow bodies with other JSX needing temporaries, fragment uses, user imports of Fragment/createVNode/h from 'vue', directives, transformOn, loops, classes, shadowing parameters) + %d generated statements between random distractors; the lowered statement must be identical up to renaming of generated identifiers" % budget(tier, 500, 12000),
+    return [], run, {"rule": "pair oracle on the real code: 12 JSX statements (sole identifier/call children, Fragment/_Fragment tags, fragments, spreads, v-slots, arrows, KeepAlive, transformOn + v-model, function bodies) transformed ALONE and between 20 prefixes x 2 suffixes; 15 tags of different kinds sharing a name or last segment (div / motion.div / a.b.div, input / Form.input, Comp / ui.Comp, ...) x 2 shapes, each alone vs. before and after each other tag; (assignments to same-named variables, function/arrow bodies with other JSX needing temporaries, fragment uses, user imports of Fragment/createVNode/h from 'vue', directives, transformOn, loops, classes, shadowing parameters) + %d generated statements between random distractors; the lowered statement must be identical up to renaming of generated identifiers; + HISTORIES of length > 1: 12 statements x (4 module-level JSX needing a temporary x 8 nested functions / arrows / blocks / methods / loops with and without temporaries of their own) x 6 arrangements before and after the statement [sampled 1/2 in quick]; python-side clause: a module-level temporary of the statement is mentioned by no other statement (as when alone)" % budget(tier, 500, 12000),
                      "pairs": pairs}
 
 
+def _dummy_span(n):
+    sp = n.get("span") or {}
+    return sp.get("start") == 0 and sp.get("end") == 0
+
+
+def _ident_ids(node, acc):
+    if isinstance(node, dict):
+        if node.get("type") == "Identifier" and "ctxt" in node:
+            acc.add((node.get("value"), node["ctxt"]))
+        for v in node.values():
+            _ident_ids(v, acc)
+    elif isinstance(node, list):
+        for v in node:
+            _ident_ids(v, acc)
+    return acc
+
+
+def temporaries_shared(out, idx):
+    """for the idx-th user statement of an output module: the module-level temporaries (declarators of the `let` / `const` statements the transform
+    inserted at module level) it uses, and how many OTHER user statements mention the same binding (name + syntax context)"""
+    body = out.get("body", [])
+    temps = set()
+    for it in body:
+        if it.get("type") == "VariableDeclaration" and _dummy_span(it):
+            for d in it.get("declarations", []):
+                if (d.get("id") or {}).get("type") == "Identifier":
+                    temps.add((d["id"].get("value"), d["id"].get("ctxt")))
+    user = [it for it in body if not _dummy_span(it)]
+    if idx >= len(user):
+        return None
+    mine = _ident_ids(user[idx], set()) & temps
+    others = [_ident_ids(it, set()) for k, it in enumerate(user) if k != idx]
+    return sorted((t[0], sum(1 for o in others if t in o)) for t in mine)
+
+
+def c10_extra(run_cases, recs, records):
+    """python-side clause of the pair oracle (binding identity is not in the printed statement): a temporary the lowered statement writes must not be
+    mentioned by any other statement of the module - alone it never is; if it is in context, what the statement evaluates to (its slot functions
+    read the temporary lazily) depends on the code around it"""
+    byid = {c["id"]: r for c, r in zip(run_cases, recs)}
+    for rec in records:
+        if rec["kind"] != "pair" or rec["oracle"].startswith("FAIL") or not str(rec["case"].get("mode", "")).startswith("c10:"):
+            continue
+        _, i, j = rec["case"]["mode"].split(":")
+        ra, rb = byid.get(rec["case"]["a"]["id"]), byid.get(rec["case"]["b"]["id"])
+        if not ra or not rb or "out" not in ra or "out" not in rb:
+            continue
+        sa, sb = temporaries_shared(ra["out"], int(i)), temporaries_shared(rb["out"], int(j))
+        if sa is None or sb is None:
+            continue
+        if [n for _, n in sa] != [n for _, n in sb]:
+            rec["oracle"] = "FAIL:temporary-shared-with-other-code:the statement's module-level temporaries and the number of other statements mentioning each: alone %r, in context %r" % (sa, sb)
+
+
 PROPS["C10"] = {
+    "extra": c10_extra,
     "theorems": ["C10_host_classification_state_free", "C10_fragment_by_name", "C10_no_capture_without_assignment", "C10_assignment_consumed",
                  "C10_only_assignments_remembered"],
     "cases": c10_cases,
@@ -1420,12 +1646,19 @@ PROPS["C11"] = {
 
 
 # ---- C16-C19 -----------------------------------------------------------------------------------------------
-def ts_cases(pid, casefn, tier, seed, n_quick, n_thorough, extra=None):
+def ts_cases(pid, casefn, tier, seed, n_quick, n_thorough, extra=None, products=None):
     r = gen.Rng(seed)
     run = corpus_cases(pid) + fixture_cases(lambda c: c["tsx"])
+    for cid, src in (products or []):
+        run.append({"id": cid, "src": src, "tsx": True, "opts": {"resolveType": True, "optimize": len(run) % 3 == 0}})
     hist = collections.Counter()
+    bodyfn = getattr(tsgen, casefn.__name__.replace("_case", "_body"), None)
     for i in range(budget(tier, n_quick, n_thorough)):
-        src, used = casefn(r, i)
+        if bodyfn is not None and i % 5 == 4:
+            # several bodies in different scopes of ONE module, the same declaration names meaning different things in each
+            src, used = tsgen.multi_scope_case(r, i, bodyfn)
+        else:
+            src, used = casefn(r, i)
         hist.update(used)
         run.append({"id": "t%d" % i, "src": src, "tsx": True, "opts": {"resolveType": True, "optimize": r.chance(0.3)}})
     for j, e in enumerate(extra or []):
@@ -1434,8 +1667,9 @@ def ts_cases(pid, casefn, tier, seed, n_quick, n_thorough, extra=None):
 
 
 def c16_cases(tier, seed):
-    run, hist = ts_cases("C16", tsgen.c16_case, tier, seed, 2500, 60000, tsgen.UNRESOLVABLE)
-    return [], run, {"rule": "TSX fixtures + %d generated calls: a random finite prop map (identifier / quoted / hyphenated keys; properties, methods, getters; optional flags) encoded by recursively partitioning and wrapping it with literal, alias (also exported), interface, merged interfaces, extends, intersection, parentheses, Partial, Required, Pick/Omit with literal-union keys (also through an alias), indexed access through alias/interface/literal, with every declaration placed before OR after the call (25%%) and the whole in module, function or block scope (shadowing); + 12 unresolvable / unsupported types that must be reported" % (len(run) - 12),
+    run, hist = ts_cases("C16", tsgen.c16_case, tier, seed, 2500, 60000, tsgen.UNRESOLVABLE,
+                         products=tsgen.same_name_products(tsgen.C16_NAME_KINDS, tsgen.C16_PAYLOADS, True))
+    return [], run, {"rule": "TSX fixtures + %d generated calls: a random finite prop map (identifier / quoted / hyphenated keys; properties, methods, getters; optional flags) encoded by recursively partitioning and wrapping it with literal, alias (also exported), interface, merged interfaces, extends, intersection, parentheses, Partial, Required, Pick/Omit with literal-union keys (also through an alias), indexed access through alias/interface/literal, with every declaration placed before OR after the call (25%%) and the whole in module, function or block scope (shadowing); REUSE: one declaration (interface with extends, extends chain, sibling interfaces sharing a base, merged interface, alias) reached several times in one annotation through different Pick / Omit / Partial / Required views that partition the map; every 5th module holds 2-3 independently generated bodies in different scopes that declare the SAME names (sibling functions, shadowing before/after, nested, blocks); + 294 modules: one name declared in two scopes as every ordered pair of 7 declaration kinds x 6 arrangements; + 12 unresolvable / unsupported types that must be reported" % (len(run) - 12),
                      "histogram": dict(hist.most_common(40))}
 
 
@@ -1446,23 +1680,106 @@ def c17_cases(tier, seed):
 
 
 def c18_cases(tier, seed):
-    run, hist = ts_cases("C18", tsgen.c18_case, tier, seed, 2500, 60000)
-    return [], run, {"rule": "TSX fixtures + generated calls: random prop maps (incl. Function-typed props) x default objects mixing literal, expression, shorthand, getter, method, async method, quoted and computed-literal keys, extra keys, and the dynamic forms (identifier, spread, computed identifier key, computed expression key)",
+    run, hist = ts_cases("C18", tsgen.c18_case, tier, seed, 2500, 60000, products=tsgen.c18_products(tier))
+    return [], run, {"rule": "TSX fixtures + generated calls: random prop maps (incl. Function-typed props) x default objects mixing literal, expression, shorthand, getter, method, async method, quoted and computed-literal keys, extra keys, and the dynamic forms (identifier, spread, computed identifier key, computed expression key); + SEVERAL calls annotated with ONE named props type (interface, alias, extends, exported and declared after use): every ordered pair and sampled triples of 8 default kinds (static, none, identifier, spread, computed key, {}, getter/shorthand, call); python-side clauses: no `default` entry and no mergeDefaults without a written default, declarations handed to mergeDefaults carry no `default`",
                      "histogram": dict(hist.most_common(40))}
 
 
 def c19_cases(tier, seed):
-    run, hist = ts_cases("C19", tsgen.c19_case, tier, seed, 2500, 60000)
-    return [], run, {"rule": "TSX fixtures + generated calls: event-name sets (incl. names with `:` and `-`) encoded as function types, unions of function types, literal-union first parameters (also through an alias), call-signature literals, interfaces, extends chains, property syntax, aliases (also exported), intersections, declarations before or after the call; second parameter as identifier or destructuring pattern, with or without SetupContext",
+    run, hist = ts_cases("C19", tsgen.c19_case, tier, seed, 2500, 60000,
+                         products=tsgen.same_name_products(tsgen.C19_NAME_KINDS, tsgen.C19_PAYLOADS, False))
+    return [], run, {"rule": "TSX fixtures + generated calls: event-name sets (incl. names with `:` and `-`) encoded as function types, unions of function types, literal-union first parameters (also through an alias), call-signature literals, interfaces, extends chains, property syntax, aliases (also exported), intersections, declarations before or after the call; second parameter as identifier or destructuring pattern, with or without SetupContext; every 5th module holds 2-3 independently generated bodies in different scopes declaring the SAME alias / interface names; + 384 modules: one name declared in two scopes as every ordered pair of 8 declaration kinds (literal-union alias used by a function type / call signature / through another alias / through an interface, function-type alias, interface, interface with extends, property syntax) x 6 arrangements (sibling scopes, shadowing before / after, nested, declaration after use, three uses)",
                      "histogram": dict(hist.most_common(40))}
 
 
 _has_dc = lambda c, r: "defineComponent(" in c["src"]
+
+
+def _dc_calls(node, acc):
+    """user-written calls `defineComponent(...)` (identifier callee, real span), keyed by span"""
+    if isinstance(node, dict):
+        if node.get("type") == "CallExpression" and not _dummy_span(node) and (node.get("callee") or {}).get("type") == "Identifier" \
+                and node["callee"].get("value") == "defineComponent":
+            sp = node["span"]
+            acc[(sp["start"], sp["end"])] = node
+        for v in node.values():
+            _dc_calls(v, acc)
+    elif isinstance(node, list):
+        for v in node:
+            _dc_calls(v, acc)
+    return acc
+
+
+def _key_text(k):
+    k = k or {}
+    if k.get("type") in ("Identifier", "StringLiteral"):
+        return str(k.get("value"))
+    if k.get("type") == "NumericLiteral":
+        return str(k.get("value"))
+    return None
+
+
+def c18_post(rec, c, r, d):
+    """python-side clauses of the statement that Oracle.defaultsJudge does not evaluate (it judges calls WITH a written default only):
+    (1) a call whose props parameter has NO default gets no `default` entry in the injected props and no mergeDefaults;
+    (2) when the injected props go through mergeDefaults, the declarations handed to it carry no `default` of their own
+        (otherwise a prop absent from the dynamic object keeps a default nobody wrote for this component)"""
+    if rec["oracle"] != "ok" or not (c.get("opts") or {}).get("resolveType") or "in" not in r or "out" not in r or r.get("panic") is not None:
+        return
+    cin, cout = _dc_calls(r["in"], {}), _dc_calls(r["out"], {})
+    for sp, ci in sorted(cin.items()):
+        co = cout.get(sp)
+        if co is None:
+            continue
+        ain, aout = ci.get("arguments", []), co.get("arguments", [])
+        if len(ain) != 1 or len(aout) != 2 or any(a.get("spread") for a in ain + aout):
+            continue                       # the user passed options of their own (C20's territory) or nothing was injected
+        setup = ain[0]["expression"]
+        if setup.get("type") == "ArrowFunctionExpression":
+            params = setup.get("params", [])
+        elif setup.get("type") == "FunctionExpression":
+            params = [p.get("pat") for p in setup.get("params", [])]
+        else:
+            continue
+        if not params:
+            continue
+        has_default = (params[0] or {}).get("type") == "AssignmentPattern"
+        opts = aout[1]["expression"]
+        if opts.get("type") != "ObjectExpression" or not _dummy_span(opts):
+            continue
+        pv = [p.get("value") for p in opts.get("properties", []) if p.get("type") == "KeyValueProperty" and _key_text(p.get("key")) == "props"]
+        if len(pv) != 1:
+            continue
+        pv = pv[0]
+        merged = False
+        if pv.get("type") == "CallExpression" and str((pv.get("callee") or {}).get("value", "")).endswith("mergeDefaults"):
+            merged = True
+            margs = pv.get("arguments", [])
+            pv = margs[0]["expression"] if margs else {}
+        if pv.get("type") != "ObjectExpression":
+            continue
+        carrying = []
+        for e in pv.get("properties", []):
+            if e.get("type") == "KeyValueProperty" and (e.get("value") or {}).get("type") == "ObjectExpression":
+                for f in e["value"].get("properties", []):
+                    if _key_text(f.get("key")) == "default" or (f.get("type") in ("MethodProperty", "GetterProperty") and _key_text(f.get("key")) == "default"):
+                        carrying.append(_key_text(e.get("key")))
+        where = "call at bytes %d..%d" % sp
+        if not has_default and merged:
+            rec["oracle"] = "FAIL:mergeDefaults-without-a-written-default:%s has no parameter default but its props go through mergeDefaults" % where
+            return
+        if not has_default and carrying:
+            rec["oracle"] = "FAIL:default-without-a-written-default:%s: the props parameter has no default, yet props %s received a `default`" % (where, carrying)
+            return
+        if merged and carrying:
+            rec["oracle"] = "FAIL:merged-declarations-carry-defaults:%s: the declarations handed to mergeDefaults already carry a `default` for %s (not written for this call)" % (where, carrying)
+            return
+
 PROPS["C16"] = {"theorems": ['C16_literal', 'C16_alias', 'C16_paren', 'C16_partial_required_flags', 'C16_partial_sets_optional', 'C16_pick_omit_partition', 'C16_required_iff_not_optional', 'C16_imported_type_reported', 'C16_unknown_global_reported', 'C16_unsupported_construct_reported', 'aliasHook_registers', 'C16_registry_from_whole_module', 'resolveElements_eq_members', 'propFold_mems', 'C16_grammar'], "cases": c16_cases, "nontrivial": _has_dc,
                 "explanation": "oracle: the set-theoretic meaning of the annotated props type over the WHOLE module's declarations (TypeSpec.propsOfType) = the keys and `required` flags of the injected props; a type outside the grammar must be reported"}
 PROPS["C17"] = {"theorems": ['C17_keyword_table', 'C17_structural_table', 'C17_literal_table', 'C17_builtin_class', 'C17_union_order', 'inferRuntime_eq_rt', 'rt_sound', 'C17_soundness', 'C17_emitted_no_stricter', 'C17_soundness_emitted', 'C17_null_kept', 'C17_boolean_string_order'], "cases": c17_cases, "nontrivial": _has_dc,
                 "explanation": "oracle: the JavaScript constructors of the declared type (TypeSpec.ctorsOfType; any/unknown = no check) = those of the emitted `type`, Boolean/String order kept"}
-PROPS["C18"] = {"theorems": ['C18_literal_as_is', 'C18_expression_through_factory', 'C18_function_prop_gets_value', 'C18_function_prop_gets_written_function', 'C18_shorthand', 'C18_getter', 'C18_method_is_the_function', 'C18_key_spellings_match', 'C18_dynamic_forms', 'C18_one_dynamic_entry_suffices', 'C18_dynamic_goes_through_mergeDefaults', 'C18_no_default_no_entry'], "cases": c18_cases, "nontrivial": _has_dc,
+PROPS["C18"] = {"theorems": ['C18_literal_as_is', 'C18_expression_through_factory', 'C18_function_prop_gets_value', 'C18_function_prop_gets_written_function', 'C18_shorthand', 'C18_getter', 'C18_method_is_the_function', 'C18_key_spellings_match', 'C18_dynamic_forms', 'C18_one_dynamic_entry_suffices', 'C18_dynamic_goes_through_mergeDefaults', 'C18_no_default_no_entry'], "cases": c18_cases, "post": c18_post, "nontrivial": _has_dc,
                 "explanation": "oracle: every statically written default reaches its prop's `default` as the value itself (literals, methods, Function-typed props) or as a factory returning it; non-analysable defaults go through mergeDefaults unchanged"}
 PROPS["C19"] = {"theorems": ['C19_no_second_parameter', 'C19_unannotated_second_parameter', 'C19_other_annotation', 'C19_not_a_function', 'C19_literal_union_expansion', 'C19_literal_union_through_alias', 'C19_call_signatures', 'C19_function_type', 'C19_property_syntax'], "cases": c19_cases, "nontrivial": _has_dc,
                 "explanation": "oracle: the event names the SetupContext<E> annotation declares (TypeSpec.emitsOfType, as a set) = the injected emits; no emits without such an annotation"}
